@@ -93,4 +93,4 @@ TRUSTED = vlib.TRUSTED_COMMON + [
 
 
 def main(tier, seed):
-    return vlib.standard_main("C03", LEGS, tier, seed, trusted=TRUSTED)
+    return vlib.standard_main("C03", LEGS, tier, seed, trusted=TRUSTED, ties=("TieLexer", "TieParser"))
